@@ -31,3 +31,65 @@ Definition check_case (i : input) (o : obs) : bool :=
   | OList [OBytes w; OBool closed] => check_response (env_of c) q p w closed
   | _ => false
   end.
+
+(* ---------- the output-transform dimension (compress_response=True, toy gzip codec of C29) ---------- *)
+From TV Require Import C02.Compress.
+From TV Require C29.Model.
+
+(* Some ae: the application has compress_response=True and the request's Accept-Encoding is ae *)
+Definition input2 := (input * option (option bytes))%type.
+
+Definition proj (r : cres) : obs :=
+  match r with
+  | CNotInDomain => OTag "NotInDomain"
+  | CAssert => OTag "AssertionError"
+  | CRaised => OTag "Raised"
+  | CDone s =>
+      match o_head s with
+      | None => OTag "NoHeaders"
+      | Some (code, H) =>
+          OList [OInt (Z.of_N code);
+                 OList (map OBytes (field_values K_CL H));
+                 OList (map OBytes (field_values (b "Content-Encoding") H));
+                 OList (map OBytes (field_values K_TE H));
+                 OList (map OBytes (field_values (b "Vary") H));
+                 OBytes (concat (o_body s)); OBool (c_closed s)]
+      end
+  end.
+
+Definition as_get (q : req) : req :=
+  mkReq GET (q_ver q) (q_conn q) (q_inm q) (q_body q) (q_nka q) (q_early q) (q_wmode q).
+
+Definition run_case2 (i : input2) : obs :=
+  let '((c, q, p), comp) := i in
+  match comp with
+  | None => run_case (c, q, p)
+  | Some ae =>
+      let e := env_of c in
+      OList [proj (crun C29.Model.toy e q ae p); proj (crun C29.Model.toy e (as_get q) ae p)]
+  end.
+
+(* the property clause of this dimension, on the implementation's two projections (request as given,
+   and the same request as GET): a HEAD response carries the status, Content-Length, Content-Encoding
+   and Vary of the GET response and no body byte; the GET body has the announced length *)
+Definition check_pair (q : req) (pm pg : obs) : bool :=
+  match pm, pg with
+  | OList [OInt sm; OList clm; OList cem; OList tem; OList vm; OBytes bm; OBool _],
+    OList [OInt sg; OList clg; OList ceg; OList teg; OList vg; OBytes bg; OBool _] =>
+      (if is_head q
+       then Z.eqb sm sg && obs_eqb (OList clm) (OList clg) && obs_eqb (OList cem) (OList ceg)
+            && obs_eqb (OList vm) (OList vg) && (match bm with [] => true | _ => false end)
+            && (match tem with [] => true | _ => false end)
+       else obs_eqb pm pg)
+      && forallb (fun v => obs_eqb v (OBytes (dec (blen bg)))) clg
+      && (match clg, teg with _ :: _, _ :: _ => false | _, _ => true end)
+  | OTag t1, OTag t2 => String.eqb t1 t2 && String.eqb t1 "AssertionError"
+  | _, _ => false
+  end.
+
+Definition check_case2 (i : input2) (o : obs) : bool :=
+  let '((c, q, p), comp) := i in
+  match comp with
+  | None => check_case (c, q, p) o
+  | Some _ => match o with OList [pm; pg] => check_pair q pm pg | _ => false end
+  end.
